@@ -27,6 +27,15 @@ def run(ctx):
         if i % 3 == 0:
             h["steps"][-1]["ops"].append(U.op_eps("s1", "e3"))
             h["steps"][-1]["cluster"]["eps"]["s1"] = "e3"
+    # an address that stays and only turns not-ready, then ready again, in partial syncs of their own
+    for i, h in enumerate(hs):
+        if i % 4 == 0:     # these histories run with drain-support
+            last = h["steps"][-1].get("cluster")
+            for eid in ("e2", "e6", "e2"):
+                st = dict(ops=[U.op_eps("s1", eid)], fullfirst=False)
+                if last:
+                    st["cluster"] = dict(last, eps=dict(last["eps"], s1=eid))
+                h["steps"].append(st)
     inp = ctx.path("ctl", "c03.json")
     out = ctx.path("ctl", "c03.ndjson")
     json.dump(hs, open(inp, "w"))
